@@ -14,5 +14,10 @@ pub mod cases;
 pub mod inst;
 pub mod c01;
 pub mod c07;
+pub mod c10;
+pub mod c12;
+pub mod c13;
+pub mod c15;
+pub mod c16;
 pub mod c19;
 pub mod selftest;
